@@ -91,7 +91,12 @@ def gen_makefile(repo, bdir, flavor):
     for p in progs:
         out.append(f"{p}.o: {VERIF}/mc/{p}.cpp\n\t$(HCXX) -c $< -o $@")
         out.append(f"{p}: {p}.o tool_instance.o tool_functions.o kerl.o $(LIBOBJS)\n\t$(LD) $^ -lcrypto -o $@")
-    out.append("all: btcdeb btcdeb_tty tap btcc " + " ".join(progs))
+    # the readline build of kerl (what ./configure produces) for the history-file loader harness
+    out.append(f"kerl_rl.o: {repo}/kerl/kerl.c\n\tgcc -std=gnu99 {opt} -DNO_AUTOMAKE -I{repo}/kerl -w -c $< -o $@")
+    out.append(f"kerlhist: {VERIF}/mc/kerlhist.c kerl_rl.o\n\tgcc -std=gnu99 {opt} -w {VERIF}/mc/kerlhist.c kerl_rl.o -lreadline -o $@")
+    # the interactive front end over the readline build of kerl: continuation lines of an open quote, history - code that exists only there
+    out.append("btcdeb_tty_rl: tool_btcdeb.o tool_instance.o tool_functions.o kerl_rl.o isatty_force.o $(LIBOBJS)\n\t$(LD) $^ -lreadline -o $@")
+    out.append("all: btcdeb btcdeb_tty btcdeb_tty_rl tap btcc kerlhist " + " ".join(progs))
     out.append("-include *.d")
     out.append(".PHONY: all libs")
     with open(os.path.join(bdir, "Makefile"), "w") as fh:
